@@ -40,6 +40,7 @@ type State struct {
 	dead    bool
 	callCnt map[string]int
 	callLog map[string]callRec
+	recDefs map[string]string
 }
 
 type callRec struct {
@@ -78,6 +79,10 @@ func (st *State) clone() *State {
 	n.callLog = make(map[string]callRec, len(st.callLog))
 	for k, v := range st.callLog {
 		n.callLog[k] = v
+	}
+	n.recDefs = make(map[string]string, len(st.recDefs))
+	for k, v := range st.recDefs {
+		n.recDefs[k] = v
 	}
 	n.loops = append([]*Loop(nil), st.loops...)
 	n.defers = append([]deferRec(nil), st.defers...)
